@@ -30,6 +30,7 @@ class Ctx(object):
         self.states = 0
         self.transitions = 0
         self.traces_validated = 0
+        self.proofs = []            # TLAPS proofs re-checked in this run
         self.replayed = 0           # TLC-generated states / edges / behaviours executed on the implementation and compared
         self.evaluations = 0
         self.nontrivial = set()
@@ -81,6 +82,29 @@ class Ctx(object):
             raise Machinery("non-vacuity failed: %s with %s expected violation of %s, got %s"
                             % (spec, cfg, inv, r.violated))
         return r
+
+    def check_proof(self, module, timeout=900):
+        """Machine-checked (TLAPS) proof that the invariants hold for unbounded constants: spec/proofs/<module>.tla is
+        re-checked from scratch (fresh directory, no fingerprint cache); every obligation must be proved."""
+        import glob
+        import re
+        import subprocess
+        d = os.path.join(self.work, "proof_" + module)
+        shutil.rmtree(d, ignore_errors=True)
+        os.makedirs(d)
+        for p in glob.glob(os.path.join(SPEC, "*.tla")) + [os.path.join(SPEC, "proofs", module + ".tla")]:
+            shutil.copy(p, d)
+        t1 = time.time()
+        try:
+            out = subprocess.run(["tlapm", "--cleanfp", module + ".tla"], cwd=d, stdout=subprocess.PIPE, stderr=subprocess.STDOUT, timeout=timeout).stdout.decode("utf-8", "replace")
+        except subprocess.TimeoutExpired:
+            raise Machinery("tlapm timed out on %s" % module)
+        m = re.search(r"All (\d+) obligations? proved", out)
+        if not m:
+            raise Machinery("TLAPS proof %s not accepted: %s" % (module, out[-400:]))
+        self.proofs.append({"module": module, "obligations_proved": int(m.group(1)), "wall_s": round(time.time() - t1, 2)})
+        shutil.rmtree(d, ignore_errors=True)
+        return int(m.group(1))
 
     def check_coverage(self, r, actions):
         for a in actions:
@@ -199,6 +223,8 @@ class Ctx(object):
             "tlc_runs": self.tlc_runs,
             "known_findings_seen": {k: h["n"] for k, h in self.known_hit.items()},
         }
+        if self.proofs:
+            cov["tlaps_proofs"] = self.proofs
         if self.exhaustive is not None:
             cov["exhaustive"] = self.exhaustive
         cov.update(self.notes)
